@@ -1,6 +1,8 @@
 import Mieru.Gen.Consts
 import Mieru.Gen.Arith
 import Mieru.Model.Padding
+import Mieru.Gen.UdpWire
+import Mieru.Proofs.Chunk
 /-!
 # C14 — no datagram exceeds the configured MTU; no payload exceeds its length field
 
@@ -8,7 +10,9 @@ The theorems are stated about the definitions REGENERATED from the repository's 
 (`Mieru.Gen.Arith`, `Mieru.Gen.Consts`), so an edit to the size arithmetic that breaks the bound
 breaks these proofs at `lake build` time.
 
-`datagramLen` is the buffer arithmetic of `PacketUnderlay.writeOneSegment`:
+`datagramLen`, the padding budgets, the piggyback decision and the fragment loop are hand-written and PROVED
+EQUAL to the definitions regenerated from `writeOneSegment` / `Write` / `writeChunk` (`Mieru.Gen.UdpWire`, second half
+of this file). `datagramLen` is the buffer arithmetic of `PacketUnderlay.writeOneSegment`:
 `make([]byte, encryptedMetadataLen + len(padding1) + wirePayloadLen + len(padding2))` with
 `encryptedMetadataLen = MetadataLength + NonceSize + Overhead` and
 `wirePayloadLen = payloadLen + Overhead` when there is a payload, else 0.
@@ -176,6 +180,242 @@ theorem fragment_count_fits_u8 (mtu mode len f : Int) (hm : 1280 ≤ mtu ∧ mtu
   have : (len - 1) / f < 256 := Int.ediv_lt_of_lt_mul (by omega) (by omega)
   omega
 
+/-! ## The buffer arithmetic is the regenerated one (`Mieru.Gen.UdpWire`, tools/goextract/c14wire.go)
+
+`datagramLen`, the padding budgets of `PadOK`, the piggyback decision and the fragment loop were written by
+hand; the theorems below prove each of them EQUAL to the definition regenerated from the current source of
+`PacketUnderlay.writeOneSegment`, `Session.Write` and `Session.writeChunk`. A change to that code changes the
+regenerated side and breaks these proofs at build time. -/
+
+/-- data segment, low entropy off: `writeOneSegment` allocates exactly `datagramLen` bytes -/
+theorem datagramLen_is_regenerated_data (p1 n w p2 : Int) (hn : 0 < n) :
+    datagramLen p1 n p2 true = Gen.UdpWire.packetDataSegLen n w p1 p2 0 := by
+  simp [datagramLen, Gen.UdpWire.packetDataSegLen, hn]
+
+/-- data segment, low entropy on: the wire payload is the encoded length `w` plus the tag -/
+theorem datagramLen_is_regenerated_lowentropy (p1 n w p2 : Int) (hn : 0 < n) :
+    datagramLen p1 w p2 true = Gen.UdpWire.packetDataSegLen n w p1 p2 1 := by
+  simp [datagramLen, Gen.UdpWire.packetDataSegLen, hn]
+
+/-- pure ack: no payload, whatever the other arguments -/
+theorem datagramLen_is_regenerated_ack (p1 w p2 le : Int) :
+    datagramLen p1 0 p2 false = Gen.UdpWire.packetDataSegLen 0 w p1 p2 le := by
+  simp [datagramLen, Gen.UdpWire.packetDataSegLen]
+
+/-- session segment (open / close, request / response) with `n ≥ 0` payload bytes and end padding `p` -/
+theorem datagramLen_is_regenerated_session (n p : Int) (hn : 0 ≤ n) :
+    datagramLen 0 n p (decide (0 < n)) = Gen.UdpWire.packetSessionSegLen n p := by
+  by_cases h : 0 < n
+  · simp [datagramLen, Gen.UdpWire.packetSessionSegLen, h]
+  · have : n = 0 := by omega
+    subst this
+    simp [datagramLen, Gen.UdpWire.packetSessionSegLen]
+
+/-- what a textual argument of a padding-budget call denotes -/
+def argLen (a : String) (wire p1 : Int) : Option Int :=
+  if a = "int(ss.payloadLen)" ∨ a = "int(das.payloadLen)" then some wire
+  else if a = "0" then some 0
+  else if a = "len(padding1)" then some p1
+  else none
+
+/-- the padding budget a regenerated `maxPaddingSizeWithTrafficPattern(…)` call of the packet underlay
+    computes, for a wire payload length `wire` and a first padding of `p1` bytes -/
+def budgetOfCall (args : List String) (mtu wire p1 : Int) (cfgMid cfgEnd : Option Int) : Option Int :=
+  match args with
+  | [m, tr, frag, ex, _, pos] =>
+    if m = "u.mtu" ∧ tr = "u.TransportProtocol()" then
+      match argLen frag wire p1, argLen ex wire p1 with
+      | some fr, some e =>
+        if pos = "middlePadding" then some (maxPadTP (maxPaddingSize mtu packetTransport fr e) cfgMid)
+        else if pos = "endPadding" then some (maxPadTP (maxPaddingSize mtu packetTransport fr e) cfgEnd)
+        else none
+      | _, _ => none
+    else none
+  | _ => none
+
+def regenBudgets (branch : String) (mtu wire p1 : Int) (cfgMid cfgEnd : Option Int) : List (Option Int) :=
+  (Gen.UdpWire.paddingBudgetCalls.filter (fun c => c.1 == branch)).map (fun c => budgetOfCall c.2 mtu wire p1 cfgMid cfgEnd)
+
+/-- The budgets `PadOK` bounds the two paddings of a data / ack segment with are exactly what the two
+    regenerated calls in the data branch of `PacketUnderlay.writeOneSegment` compute: both from the wire
+    payload length, the first with no existing padding for the middle position, the second with the
+    first padding's length for the end position. -/
+theorem data_budgets_regenerated (mtu wire p1 : Int) (cfgMid cfgEnd : Option Int) :
+    regenBudgets "packetDataSegLen" mtu wire p1 cfgMid cfgEnd =
+      [some (maxPadTP (maxPaddingSize mtu packetTransport wire 0) cfgMid),
+       some (maxPadTP (maxPaddingSize mtu packetTransport wire p1) cfgEnd)] := by
+  simp [regenBudgets, Gen.UdpWire.paddingBudgetCalls, budgetOfCall, argLen]
+
+/-- the end padding of a session segment: budget from the segment's OWN payload length -/
+def sessionPadBudget (mtu n : Int) (cfgEnd : Option Int) : Int := maxPadTP (maxPaddingSize mtu packetTransport n 0) cfgEnd
+
+theorem session_budget_regenerated (mtu n p1 : Int) (cfgMid cfgEnd : Option Int) :
+    regenBudgets "packetSessionSegLen" mtu n p1 cfgMid cfgEnd = [some (sessionPadBudget mtu n cfgEnd)] := by
+  simp [regenBudgets, Gen.UdpWire.paddingBudgetCalls, budgetOfCall, argLen, sessionPadBudget]
+
+/-- the stream underlay passes the same arguments (its budget is then the constant 255 / the configured maximum) -/
+theorem padding_budget_calls_stream :
+    (Gen.UdpWire.paddingBudgetCalls.filter (fun c => c.1 == "streamSessionSegLen" || c.1 == "streamDataSegLen")).map (·.2) =
+      [["t.mtu", "t.TransportProtocol()", "int(ss.payloadLen)", "0", "t.trafficPattern", "endPadding"],
+       ["t.mtu", "t.TransportProtocol()", "int(das.payloadLen)", "0", "t.trafficPattern", "middlePadding"],
+       ["t.mtu", "t.TransportProtocol()", "int(das.payloadLen)", "len(padding1)", "t.trafficPattern", "endPadding"]] := by decide
+
+/-- `Padding.maxPadTP` follows `maxPaddingSizeWithTrafficPattern` statement by statement: no pattern or no
+    padding section → the base budget; the position selects the configured maximum; unset → base;
+    negative → 0; else the minimum. (Values: correspondence `pat-maxpad` in the C14 and C16 runs.) -/
+theorem maxPadTP_shape :
+    Gen.UdpWire.maxPaddingSizeWithTrafficPatternShape =
+      ["maxPaddingSize := maxPaddingSize(mtu, transport, fragmentSize, existingPaddingSize)",
+       "if trafficPattern == nil || trafficPattern.Padding == nil", "  return maxPaddingSize",
+       "switch position", "case middlePadding", "  configured = trafficPattern.Padding.MaxMiddlePaddingLen",
+       "case endPadding", "  configured = trafficPattern.Padding.MaxEndPaddingLen", "default", "  return maxPaddingSize",
+       "if configured == nil", "  return maxPaddingSize", "if *configured < 0", "  return 0",
+       "return mathext.Min(maxPaddingSize, int(*configured))"] := by decide
+
+/-- one `mtu` in the theorems, two in the code (the fragment is cut with `s.mtu`, the padding budget uses
+    `u.mtu`): every session is created with the MTU of the underlay it is attached to -/
+theorem session_mtu_is_underlay_mtu :
+    Gen.UdpWire.sessionMTUs =
+      [("Mux.DialContext", "NewSession", "underlay.MTU()"),
+       ("PacketUnderlay.onOpenSessionRequest", "newSessionWithServerUserPolicy", "u.MTU()"),
+       ("StreamUnderlay.onOpenSessionRequest", "newSessionWithServerUserPolicy", "t.MTU()"),
+       ("NewSession", "newSessionWithServerUserPolicy", "mtu")] ∧
+    Gen.UdpWire.chunking =
+      ["sizeToSend := mathext.Min(len(b), maxPDU)", "if len(b) > maxPDU",
+       "fragmentSize, err := maxFragmentSize(s.mtu, s.transportProtocol, lowEntropyMode)"] := by decide
+
+/-- The piggyback decision of `Session.Write`, regenerated: the open request carries the first write iff low
+    entropy is off and the write is at most `MaxSessionOpenPayload` bytes — so its payload never exceeds
+    1024 bytes, whatever the application writes. (`n ≤ maxSessionOpenPayload` used to be a hypothesis.) -/
+theorem open_payload_bounded (sendLE len : Int) (hl : 0 ≤ len) :
+    0 ≤ Gen.UdpWire.openPayloadLen sendLE len ∧ Gen.UdpWire.openPayloadLen sendLE len ≤ maxSessionOpenPayload ∧
+    (sendLE = 1 → Gen.UdpWire.openPayloadLen sendLE len = 0) ∧
+    (sendLE ≠ 1 → len ≤ maxSessionOpenPayload → Gen.UdpWire.openPayloadLen sendLE len = len) := by
+  unfold Gen.UdpWire.openPayloadLen maxSessionOpenPayload
+  refine ⟨?_, ?_, ?_, ?_⟩ <;> (split <;> simp_all <;> omega)
+
+/-- Open request for ANY first write of `len` bytes, any low-entropy setting, any configured maximum and
+    any end padding within the regenerated budget: the datagram `writeOneSegment` allocates
+    (regenerated length) is at most the MTU. Retransmissions re-run the same code with a fresh padding. -/
+theorem udp_open_le_mtu (mtu sendLE len p : Int) (cfgEnd : Option Int) (hm : 1280 ≤ mtu) (hl : 0 ≤ len)
+    (hp : 0 ≤ p ∧ p ≤ sessionPadBudget mtu (Gen.UdpWire.openPayloadLen sendLE len) cfgEnd) :
+    Gen.UdpWire.packetSessionSegLen (Gen.UdpWire.openPayloadLen sendLE len) p ≤ mtu := by
+  obtain ⟨h0, h1, _, _⟩ := open_payload_bounded sendLE len hl
+  rw [← datagramLen_is_regenerated_session _ _ h0]
+  exact udp_session_le_mtu mtu _ p cfgEnd hm ⟨h0, h1⟩ hp
+
+/-- Open response, close request and close response carry no payload: at most the MTU with any end padding
+    within the regenerated budget. -/
+theorem udp_control_le_mtu (mtu p : Int) (cfgEnd : Option Int) (hm : 1280 ≤ mtu)
+    (hp : 0 ≤ p ∧ p ≤ sessionPadBudget mtu 0 cfgEnd) : Gen.UdpWire.packetSessionSegLen 0 p ≤ mtu := by
+  rw [← datagramLen_is_regenerated_session 0 p (Int.le_refl 0)]
+  exact udp_session_le_mtu mtu 0 p cfgEnd hm ⟨Int.le_refl 0, by decide⟩ hp
+
+/-! ## The fragment loop of `writeChunk`, regenerated -/
+
+theorem nFragment_is_regenerated (len f : Nat) (hf : 0 < f) :
+    (Gen.UdpWire.nFragment (len : Int) (f : Int)).toNat = Chunk.nFragment len f := by
+  unfold Gen.UdpWire.nFragment Chunk.nFragment
+  by_cases h : len > f
+  · have h' : (len : Int) > (f : Int) := by omega
+    have h1 : (0 : Int) ≤ (len : Int) - 1 := by omega
+    simp only [h, h', if_true]
+    rw [Int.tdiv_eq_ediv_of_nonneg h1]
+    have : ((len : Int) - 1) = ((len - 1 : Nat) : Int) := by omega
+    rw [this, ← Int.natCast_ediv]
+    generalize (len - 1) / f = q
+    omega
+  · have h' : ¬ (len : Int) > (f : Int) := by omega
+    simp [h, h']
+
+theorem cutLoop_is_regenerated (f : Nat) (tr : Int) : ∀ (i rem : Nat),
+    Gen.UdpWire.cutLoop (f : Int) tr i (rem : Int) = (Chunk.cutLoop f i rem).map (fun x => ((x.1 : Int), (x.2 : Int))) := by
+  intro i
+  induction i with
+  | zero => intro rem; simp [Gen.UdpWire.cutLoop, Chunk.cutLoop]
+  | succ j ih =>
+    intro rem
+    simp only [Gen.UdpWire.cutLoop, Chunk.cutLoop, List.map_cons, Gen.UdpWire.partLen]
+    have e1 : min (f : Int) (rem : Int) = ((min f rem : Nat) : Int) := by omega
+    have e2 : (rem : Int) - min (f : Int) (rem : Int) = ((rem - min f rem : Nat) : Int) := by omega
+    rw [e2, ih, e1]
+
+/-- The hand-written cutting model IS the loop regenerated from `Session.writeChunk` (number of fragments,
+    length of each fragment, numbering), on either transport. A change to `nFragment`, to `partLen` or to the
+    loop header breaks this proof. -/
+theorem cut_is_regenerated (len f : Nat) (tr : Int) (hf : 0 < f) :
+    Gen.UdpWire.cut (len : Int) (f : Int) tr = (Chunk.cut len f).map (fun x => ((x.1 : Int), (x.2 : Int))) := by
+  unfold Gen.UdpWire.cut Chunk.cut
+  rw [nFragment_is_regenerated len f hf, cutLoop_is_regenerated]
+
+/-- Every datagram of every application write, low entropy off: for every MTU above the overhead, every
+    chunk `Write` hands to `writeChunk` (1 … maxPDU bytes), every fragment the REGENERATED loop cuts from it,
+    every pair of paddings within the regenerated budgets — the datagram `writeOneSegment` allocates
+    (regenerated length) is at most the MTU. Retransmissions re-run `writeOneSegment` on the stored
+    fragment, so the same statement covers them. -/
+theorem udp_write_le_mtu (mtu : Int) (f len : Nat) (tr p1 p2 : Int) (cfgMid cfgEnd : Option Int)
+    (hf : maxFragmentSize mtu packetTransport 0 = some (f : Int)) (hf0 : 0 < f) (hl : 0 < len)
+    (x : Int × Int) (hx : x ∈ Gen.UdpWire.cut (len : Int) (f : Int) tr)
+    (hp : PadOK mtu x.2 p1 p2 cfgMid cfgEnd) :
+    0 < x.2 ∧ x.2 ≤ (f : Int) ∧ Gen.UdpWire.packetDataSegLen x.2 x.2 p1 p2 0 ≤ mtu := by
+  rw [cut_is_regenerated len f tr hf0] at hx
+  simp only [List.mem_map] at hx
+  obtain ⟨y, hy, rfl⟩ := hx
+  have := (Chunk.cut_spec len f hf0 hl).1 y hy
+  have h1 : (0 : Int) < (y.2 : Int) := by omega
+  have h2 : (y.2 : Int) ≤ (f : Int) := by omega
+  refine ⟨h1, h2, ?_⟩
+  rw [← datagramLen_is_regenerated_data p1 _ _ p2 h1]
+  exact udp_data_le_mtu mtu _ _ p1 p2 cfgMid cfgEnd hf ⟨h1, h2⟩ hp
+
+/-- … and with low entropy on (modes 32/40/48/56, MTU 1280..1500): every fragment has an encodable length
+    `w` that fits 16 bits, and the datagram carrying the encoded body is at most the MTU. -/
+theorem udp_write_lowentropy_le_mtu (mtu mode : Int) (f len : Nat) (tr p1 p2 : Int) (cfgMid cfgEnd : Option Int)
+    (hm : 1280 ≤ mtu ∧ mtu ≤ 1500) (hmode : mode = 1 ∨ mode = 2 ∨ mode = 3 ∨ mode = 4)
+    (hf : maxFragmentSize mtu packetTransport mode = some (f : Int)) (hl : 0 < len)
+    (x : Int × Int) (hx : x ∈ Gen.UdpWire.cut (len : Int) (f : Int) tr) :
+    ∃ w, lowEntropyEncodedPayloadLen x.2 mode = some w ∧ w ≤ 65535 ∧
+      (PadOK mtu w p1 p2 cfgMid cfgEnd → Gen.UdpWire.packetDataSegLen x.2 w p1 p2 1 ≤ mtu) := by
+  have hf0 : 0 < f := by
+    obtain ⟨f', h1, h2⟩ := le_fragment_size_defined mtu mode hm hmode
+    rw [hf] at h1; cases h1; omega
+  rw [cut_is_regenerated len f tr hf0] at hx
+  simp only [List.mem_map] at hx
+  obtain ⟨y, hy, rfl⟩ := hx
+  have := (Chunk.cut_spec len f hf0 hl).1 y hy
+  have h1 : (0 : Int) < (y.2 : Int) := by omega
+  have h2 : (y.2 : Int) ≤ (f : Int) := by omega
+  obtain ⟨w, hw, _, _, hw16⟩ := le_fragment_fits mtu mode _ _ hm hmode hf ⟨h1, h2⟩
+  refine ⟨w, hw, hw16, fun hp => ?_⟩
+  rw [← datagramLen_is_regenerated_lowentropy p1 _ w p2 h1]
+  exact udp_lowentropy_le_mtu mtu mode _ _ w p1 p2 cfgMid cfgEnd hm hmode hf ⟨h1, h2⟩ hw hp
+
+/-- A whole `Write` of `len` bytes: it is handed to `writeChunk` in pieces of 1 … maxPDU bytes that add up
+    to `len`, each piece is cut into fragments of 1 … f bytes that add up to the piece and are numbered
+    `n−1 … 0` with `n ≤ 256` on the packet transport — nothing is lost, every length field fits. -/
+theorem write_is_cut_losslessly (mtu mode : Int) (f len : Nat) (hm : 1280 ≤ mtu ∧ mtu ≤ 1500)
+    (hmode : mode = 0 ∨ mode = 1 ∨ mode = 2 ∨ mode = 3 ∨ mode = 4)
+    (hf : maxFragmentSize mtu packetTransport mode = some (f : Int)) :
+    (Chunk.chunks maxPDU.toNat len len).sum = len ∧
+    ∀ c ∈ Chunk.chunks maxPDU.toNat len len, 0 < c ∧ c ≤ maxPDU.toNat ∧
+      Chunk.total (Chunk.cut c f) = c ∧ (∀ x ∈ Chunk.cut c f, 0 < x.2 ∧ x.2 ≤ f) ∧
+      (Chunk.cut c f).map (·.1) = (List.range (Chunk.nFragment c f)).reverse ∧ Chunk.nFragment c f ≤ 256 := by
+  have hf0 : 596 ≤ f := by
+    rcases hmode with rfl | h
+    · have := frag_off mtu f hf; unfold packetOverhead at this; omega
+    · obtain ⟨f', h1, h2⟩ := le_fragment_size_defined mtu mode hm h
+      rw [hf] at h1; cases h1; omega
+  have hpdu : maxPDU.toNat = 32768 := by decide
+  have hc := Chunk.chunks_spec maxPDU.toNat (by rw [hpdu]; omega) len len (Nat.le_refl _)
+  refine ⟨hc.2, fun c hcm => ?_⟩
+  obtain ⟨c0, c1⟩ := hc.1 c hcm
+  have sp := Chunk.cut_spec c f (by omega) c0
+  refine ⟨c0, c1, sp.2.1, sp.1, sp.2.2.1, ?_⟩
+  have nb := Chunk.nFragment_bounds c f (by omega) c0
+  -- (n−1)·f < c ≤ 32768 and f ≥ 596 give n − 1 ≤ 54
+  have : (Chunk.nFragment c f - 1) * 596 ≤ (Chunk.nFragment c f - 1) * f := Nat.mul_le_mul_left _ hf0
+  omega
+
 end Mieru.C14
 
 /-! ## Non-vacuity: the hypotheses are met by concrete configurations, and the constants the
@@ -204,4 +444,16 @@ example : datagramLen 255 100 255 true = 698 := by decide
 example : datagramLen 0 1312 0 true = 1400 := by decide
 example : datagramLen 0 1192 0 true = 1280 := by decide
 
+/-- the regenerated loop on concrete writes: 3 full fragments exactly; one byte more starts a fourth -/
+example : Gen.UdpWire.cut 3936 1312 2 = [(2, 1312), (1, 1312), (0, 1312)] := by decide
+example : Gen.UdpWire.cut 3937 1312 2 = [(3, 1312), (2, 1312), (1, 1312), (0, 1)] := by decide
+example : Chunk.cut 1 1312 = [(0, 1)] := by decide
+example : Chunk.chunks 32768 65537 65537 = [32768, 32768, 1] := by decide
+example : Gen.UdpWire.openPayloadLen 0 1024 = 1024 ∧ Gen.UdpWire.openPayloadLen 0 1025 = 0 ∧ Gen.UdpWire.openPayloadLen 1 10 = 0 := by decide
+/-- the open request with the largest piggy-backed write at the smallest MTU: 1112 bytes leave 168 for padding -/
+example : Gen.UdpWire.packetSessionSegLen 1024 168 = 1280 ∧ sessionPadBudget 1280 1024 none = 168 ∧
+    sessionPadBudget 1280 0 none = 255 := by decide
+example : Gen.UdpWire.packetDataSegLen 1192 1192 0 0 0 = 1280 := by decide
+
 end Mieru.C14
+
